@@ -52,6 +52,8 @@ class Env:
         self.vars = {}      # python name -> (lean, type)
         self.consts = consts  # module constant name -> (lean, type)
         self.helpers = {}     # module-level helper functions that may be inlined
+        self.gens = {}        # local name -> generator expression bound to it
+        self.firsts = {}      # local name -> (L, x, cond, sentinel): `name = next(<first x in L with cond>, sentinel)`
 
     def lookup(self, name):
         if name in self.vars:
@@ -173,6 +175,20 @@ def block(stmts, env, ret):
         return f"(some {t})"
     if isinstance(s, ast.Raise):
         return "none"
+    if (isinstance(s, ast.If) and isinstance(s.test, ast.Compare) and len(s.test.ops) == 1 and isinstance(s.test.ops[0], (ast.Is, ast.IsNot))
+            and isinstance(s.test.left, ast.Name) and s.test.left.id in env.firsts
+            and ast.dump(s.test.comparators[0]) == env.firsts[s.test.left.id][3]):
+        name = s.test.left.id
+        L, x, c, _ = env.firsts[name]
+        body_rest = s.body + ([] if _terminates(s.body) else rest)
+        else_rest = list(s.orelse) + rest
+        missing, found = (body_rest, else_rest) if isinstance(s.test.ops[0], ast.Is) else (else_rest, body_rest)
+        none_branch = block(missing, env, ret)
+        saved = dict(env.vars)
+        env.vars[name] = ("r_" + name, "str")
+        some_branch = block(found, env, ret)
+        env.vars = saved
+        return f"(match {L}.find? (fun {x} => {c}) with | some r_{name} => {some_branch} | none => {none_branch})"
     if isinstance(s, ast.If):
         c, cty = expr(s.test, env)
         if cty != "bool":
@@ -180,6 +196,32 @@ def block(stmts, env, ret):
         then = block(s.body + ([] if _terminates(s.body) else rest), env, ret)
         els = block(list(s.orelse) + rest, env, ret)
         return f"(if {c} then {then} else {els})"
+    if isinstance(s, ast.Assign) and len(s.targets) == 1 and isinstance(s.targets[0], ast.Name) and isinstance(s.value, ast.GeneratorExp):
+        env.gens[s.targets[0].id] = s.value
+        return block(rest, env, ret)
+    if (isinstance(s, ast.Assign) and len(s.targets) == 1 and isinstance(s.targets[0], ast.Name) and isinstance(s.value, ast.Call)
+            and isinstance(s.value.func, ast.Name) and s.value.func.id == "next" and len(s.value.args) == 2 and not s.value.keywords):
+        # chosen = next(<x for x in L if c>, SENTINEL): the first element of L with c, or the sentinel
+        g, sentinel = s.value.args
+        g = env.gens.get(g.id) if isinstance(g, ast.Name) else g
+        if not (isinstance(g, ast.GeneratorExp) and len(g.generators) == 1 and not g.generators[0].is_async
+                and isinstance(g.generators[0].target, ast.Name) and isinstance(g.elt, ast.Name)
+                and g.elt.id == g.generators[0].target.id and len(g.generators[0].ifs) == 1):
+            raise Untranslatable("next() of something else than `(x for x in L if c)`")
+        if not (isinstance(sentinel, ast.Name) or (isinstance(sentinel, ast.Constant) and sentinel.value is None)):
+            raise Untranslatable("next() default")
+        L, lty = expr(g.generators[0].iter, env)
+        if lty != "strlist":
+            raise Untranslatable("next() over a non-list")
+        x = "x_" + g.generators[0].target.id
+        saved = dict(env.vars)
+        env.vars[g.generators[0].target.id] = (x, "str")
+        c, cty = expr(g.generators[0].ifs[0], env)
+        env.vars = saved
+        if cty != "bool":
+            raise Untranslatable("generator condition")
+        env.firsts[s.targets[0].id] = (L, x, c, ast.dump(sentinel))
+        return block(rest, env, ret)
     if isinstance(s, ast.For) and isinstance(s.target, ast.Name) and not s.orelse and isinstance(s.iter, (ast.Tuple, ast.List)):
         # a loop over a literal tuple: unrolled
         unrolled = []
@@ -303,6 +345,16 @@ def gen(src: Path):
                   if isinstance(n, ast.Assign) and len(n.targets) == 1 and isinstance(n.targets[0], ast.Name)
                   and isinstance(n.value, ast.Constant) and isinstance(n.value.value, str)}
 
+    compiled = {}
+    for n in vt.body:
+        if (isinstance(n, ast.Assign) and len(n.targets) == 1 and isinstance(n.targets[0], ast.Name) and isinstance(n.value, ast.Call)
+                and isinstance(n.value.func, ast.Attribute) and n.value.func.attr == "compile" and getattr(n.value.func.value, "id", None) == "re"
+                and len(n.value.args) == 1 and not n.value.keywords):
+            a0 = n.value.args[0]
+            pat = a0.value if isinstance(a0, ast.Constant) else str_consts.get(getattr(a0, "id", None))
+            if isinstance(pat, str):
+                compiled[n.targets[0].id] = pat
+
     def missed(name, why):
         not_regenerated.append(name)
         report.setdefault("notes", []).append(f"{name}: source outside the translator's subset ({why}); the reference definition is used")
@@ -336,30 +388,48 @@ def gen(src: Path):
         if (isinstance(call, ast.Compare) and len(call.ops) == 1 and isinstance(call.ops[0], ast.IsNot)
                 and isinstance(call.comparators[0], ast.Constant) and call.comparators[0].value is None):
             call = call.left  # `re.match(...) is not None`
-        if not (isinstance(call, ast.Call) and isinstance(call.func, ast.Attribute) and call.func.attr == "match"
-                and getattr(call.func.value, "id", None) == "re" and len(call.args) == 2 and getattr(call.args[1], "id", None) == f.args.args[0].arg):
-            raise Untranslatable("not `return bool(re.match(pattern, version))`")
-        p = call.args[0]
-        pattern = p.value if isinstance(p, ast.Constant) else lits.get(getattr(p, "id", None), str_consts.get(getattr(p, "id", None)))
+        argname = f.args.args[0].arg
+        if (isinstance(call, ast.Call) and isinstance(call.func, ast.Attribute) and call.func.attr == "match"
+                and getattr(call.func.value, "id", None) == "re" and len(call.args) == 2 and getattr(call.args[1], "id", None) == argname):
+            p = call.args[0]
+            pattern = p.value if isinstance(p, ast.Constant) else lits.get(getattr(p, "id", None), str_consts.get(getattr(p, "id", None)))
+        elif (isinstance(call, ast.Call) and isinstance(call.func, ast.Attribute) and call.func.attr == "match"
+                and isinstance(call.func.value, ast.Name) and call.func.value.id in compiled and len(call.args) == 1
+                and getattr(call.args[0], "id", None) == argname):
+            pattern = compiled[call.func.value.id]  # a module-level `X = re.compile(<pattern>)`
+        else:
+            raise Untranslatable("not `re.match(pattern, version)` / `<compiled pattern>.match(version)`")
         if pattern != KNOWN_PATTERN:
             raise Untranslatable(f"pattern {pattern!r} is not the modelled one")
     except (Untranslatable, IndexError) as ex:
         missed("validate_format", str(ex)[:120])
         pattern = KNOWN_PATTERN
 
-    # parse_version: `if not validate_format(v): raise` then split("-") and three int(parts[k]) — shape check only
+    # parse_version: a format guard first (inline or through a helper), then ONE split("-") of the argument, int() applied to the
+    # parts, three values returned — shape check only, the leaf is hand-modelled
     try:
         f = _func(vt, "parse_version", "ProtocolVersion")
-        body = [s for s in f.body if not _is_effect_free(s)]
-        ok = (len(body) == 3 and isinstance(body[0], ast.If) and isinstance(body[0].test, ast.UnaryOp) and isinstance(body[0].test.op, ast.Not)
-              and _callee(getattr(body[0].test.operand, "func", None)) == "validate_format" and isinstance(body[0].body[-1], ast.Raise)
-              and isinstance(body[1], ast.Assign) and isinstance(body[1].value, ast.Call) and getattr(body[1].value.func, "attr", None) == "split"
-              and ast.literal_eval(body[1].value.args[0]) == "-" and isinstance(body[2], ast.Return) and isinstance(body[2].value, ast.Tuple)
-              and [(_callee(e.func), ast.literal_eval(e.args[0].slice)) for e in body[2].value.elts] == [("int", 0), ("int", 1), ("int", 2)])
-        if not ok:
+        body = [s_ for s_ in f.body if not _is_effect_free(s_)]
+        arg = f.args.args[0].arg
+        g0 = body[0]
+        guard_inline = (isinstance(g0, ast.If) and isinstance(g0.test, ast.UnaryOp) and isinstance(g0.test.op, ast.Not)
+                        and _callee(getattr(g0.test.operand, "func", None)) == "validate_format" and isinstance(g0.body[-1], ast.Raise))
+        guard_helper = (isinstance(g0, ast.Expr) and isinstance(g0.value, ast.Call) and isinstance(g0.value.func, ast.Name)
+                        and g0.value.func.id in helpers and any(_callee(getattr(n_, "func", None)) == "validate_format" for n_ in ast.walk(helpers[g0.value.func.id]))
+                        and any(isinstance(n_, ast.Raise) for n_ in ast.walk(helpers[g0.value.func.id])))
+        tail = body[1:]
+        nodes = [n_ for t_ in tail for n_ in ast.walk(t_)]
+        splits = [n_ for n_ in nodes if isinstance(n_, ast.Call) and getattr(n_.func, "attr", None) == "split"
+                  and getattr(n_.func.value, "id", None) == arg and len(n_.args) == 1 and ast.literal_eval(n_.args[0]) == "-"]
+        ints = [n_ for n_ in nodes if isinstance(n_, ast.Call) and getattr(n_.func, "id", None) == "int" and len(n_.args) == 1 and not n_.keywords]
+        rets = [n_ for n_ in nodes if isinstance(n_, ast.Return)]
+        three = len(rets) == 1 and isinstance(rets[0].value, ast.Tuple) and len(rets[0].value.elts) == 3
+        other_calls = [n_ for n_ in nodes if isinstance(n_, ast.Call) and n_ not in splits and n_ not in ints]
+        if not ((guard_inline or guard_helper) and len(splits) == 1 and len(ints) in (1, 3) and three and not other_calls
+                and not any(isinstance(n_, (ast.If, ast.For, ast.While, ast.Try)) for n_ in nodes)):
             raise Untranslatable("shape")
     except Exception:  # noqa
-        missed("parse_version", "not `format guard; parts = v.split('-'); return int(parts[0]), int(parts[1]), int(parts[2])`")
+        missed("parse_version", "not `format guard; split('-'); int() of the three parts; return them`")
 
     fun("is_supported", [("version", "str")], "bool")
     fun("compare", [("version1", "str"), ("version2", "str")], "int")
